@@ -137,6 +137,36 @@ func runC15(c *core.Ctx) {
 			})
 			c.Check("every-request-type-has-a-handler", f.Name+"/"+k+"/delegates", c.P.Pos(cc.Pos()), calls, "the case for "+k+" neither reads the frame nor calls a process* function")
 		}
+		// a frame of unknown type ends the connection: its length and payload follow on the stream, and reading on
+		// would dispatch on bytes from the middle of that frame
+		var def *ast.CaseClause
+		ast.Inspect(f.Body, func(nd ast.Node) bool {
+			if sw, ok := nd.(*ast.SwitchStmt); ok {
+				hasMsg := false
+				var d *ast.CaseClause
+				for _, s := range sw.Body.List {
+					cc := s.(*ast.CaseClause)
+					if cc.List == nil {
+						d = cc
+					}
+					for _, x := range cc.List {
+						if strings.HasSuffix(constName(info, x), "RequestMessage") {
+							hasMsg = true
+						}
+					}
+				}
+				if hasMsg && def == nil {
+					def = d
+				}
+			}
+			return true
+		})
+		leaves := false
+		if def != nil && len(def.Body) > 0 {
+			_, leaves = def.Body[len(def.Body)-1].(*ast.ReturnStmt)
+		}
+		c.Check("unknown-frame-type-ends-the-connection", f.Name+"/default", f.PosStr(), def != nil && leaves,
+			"the dispatcher has no default branch that returns: after a frame of a type this node does not know it reads on and takes the bytes of that frame's length and payload for message types (a payload can carry a complete write-shard or leave-cluster request)")
 		for k := range cases {
 			if strings.HasSuffix(k, "Message") && !registry[k] {
 				c.Check("every-request-type-has-a-handler", f.Name+"/"+k+"/registered", f.PosStr(), false, "handleConn dispatches on "+k+" which is not a request message constant")
